@@ -25,7 +25,7 @@ RULE = ("(enumeration modes: all1 = one preemption at every yield point; lock2 =
 ASSUMPTIONS = ["preemption at line boundaries of source-selected yield points only (no preemption inside a line)", "<=3 concurrent requests, Flask test client instead of a socket server",
                "a refused request (instance locked) is a correct outcome; the property constrains successful responses and the final state"]
 REQUIRED = {"saves_during_stream": 5, "rejected_streams": 5, "same_thread_sequences": 30, "schedules": 150, "schedules_with_preemption": 100, "yield_points_hit": 3000, "window_entered": 20}
-BUDGET_S = {"quick": 115, "thorough": 2400}
+BUDGET_S = {"quick": 170, "thorough": 2400}
 
 KINDS = ["step", "steps2", "steps3", "stream", "abort", "error", "abort0"]
 PATTERN = re.compile(r"session_state|\.lock\(|\.unlock\(|is_locked\(|run_step\(|try_lock\(|release\(|call_on_close|_lock_guard")
